@@ -12,7 +12,7 @@ from vlib import common as C, engine as E, querygen as QG, genquery as GQ
 LEAN_MODULES = ["Cpf.Props.C15"]
 
 NASTY = ('package gen;\n/* ctrl \x01\x1b\x7f chars & <html>   "quoted" back\\slash */\n'
-         'class Nasty implements Runnable2, Marker {\n  String a = "quote\\" back\\\\slash \\t tab";\n  String b = "ünï 日本";\n  String u = "\\u003cscript\\u003e \\u0026 \\\\u003c"; /* \\u003e in a comment */\n'
+         'class Nasty implements Runnable2, Marker {\n  String a = "quote\\" back\\\\slash \\t tab";\n  String b = "ünï 日本";\n  String u = "\\u003cscript\\u003e \\u0026 \\\\u003c"; /* \\u003e in a comment */\n  String pct = "%d of %s done, 100%"; // http://x\n'
          '  /** @author me "q" <b>\n   * @see Other */\n  public void weird(int p1, String p2) throws Exception { emit("x<y>&z", \'c\', 1); }\n}\n')
 
 HDR = re.compile(r"^\tFile: (.*), Line: (\d+) $")
@@ -238,6 +238,15 @@ def run(run):
                 raw = runs[name][3] if name == "text-file" else runs[name][1].decode("utf-8", "replace")
                 blocks = parse_text(raw or "")
                 locs[name] = collections.Counter((b["file"], b["line"]) for b in blocks)
+                if ne == 1 and len(rows) == len(rs) and all(isinstance(c, str) and "\n" not in c and "\r" not in c for row in rows for c in row):
+                    # the Result: line of every block is the row of that combination: each cell verbatim, then " | "
+                    want_rows = collections.Counter((e["file"], e["line"], "".join(c + " | " for c in row)) for e, row in zip(rs, rows))
+                    got_rows = collections.Counter((b["file"], b["line"], b["result"]) for b in blocks)
+                    stats["text_rows_compared"] += len(blocks)
+                    if want_rows != got_rows:
+                        diff = list((want_rows - got_rows).elements())[:1] + list((got_rows - want_rows).elements())[:1]
+                        run.violation("C15:text-row-differs", "mode %s prints other Result rows than the JSON rows of the same locations for %r, e.g. %r" % (name, text, diff),
+                                      dict(query=text, mode=name, example=diff))
                 if name == "text":
                     # numbering and snippet lines; runs are separate scans, so match blocks to entries by location
                     by_loc = collections.defaultdict(list)
